@@ -240,9 +240,14 @@ class DefaultFormatter(BaseFormatter):
     def _to_comment_template(self, open_symbols: str) -> str:
         """Create a template for G-code comments."""
 
+        # Curly braces must be escaped to be used in a format string
+
+        escaped_open = open_symbols.replace("{", "{{").replace("}", "}}")
+
         if open_symbols in COMMENT_OPENINGS:
             index = COMMENT_OPENINGS.index(open_symbols)
             end_symbols = COMMENT_ENDINGS[index]
-            return f"{open_symbols} {{}} {end_symbols}"
+            escaped_end = end_symbols.replace("{", "{{").replace("}", "}}")
+            return f"{escaped_open} {{}} {escaped_end}"
 
-        return f"{open_symbols} {{}}"
+        return f"{escaped_open} {{}}"
